@@ -229,6 +229,23 @@ def gen_cmdline_strings(rng, n):
 # ------------------------------------------------------------------------------------------------
 _NEW_KEYS = ['sect', 'fresh', 'extra', 'nw', 'opt']
 
+def resolve_aliases(raw):
+    """the document with every alias replaced by a copy of the anchored node (what PyYAML's data is)"""
+    anchors = {}
+    def collect(n):
+        if 'anchor' in n: anchors[n['anchor']] = n
+        for c in n.get('q', []): collect(c)
+        for _, c in n.get('m', []): collect(c)
+    def subst(n):
+        if 'alias' in n:
+            return subst(anchors[n['alias']])
+        m = {k: v for k, v in n.items() if k != 'anchor'}
+        if 'q' in m: m['q'] = [subst(c) for c in m['q']]
+        if 'm' in m: m['m'] = [[k, subst(c)] for k, c in m['m']]
+        return m
+    collect(raw)
+    return subst(raw)
+
 def gen_new_subtree(rng, depth):
     """plain content for a path the base does not have: scalars, mappings and lists, `depth` container levels at most"""
     r = rng.random()
@@ -403,6 +420,9 @@ class C08(MergeFamProp):
             D('D', M({'m': M({'keep': S(1, kw={'prio': 1}), 'opt': M({'lr': S(1)})})}), cmd=['m=!del {opt: {lr: 2}}'],
               over=M({'m': M({'opt': M({'lr': S(2)})}, kw={'del': True})}, kw={'new': False})),
             D('D', M({'m': M({'opt': M({'lr': S(1)})})}), M({'m': M({'optt': S(2)}, kw={'del': True})}, kw={'new': False})),
+            # D52 (recorded finding): an untagged mapping placed twice by an anchor / alias below !notnew shares its CHILD nodes; the first
+            # merge re-parents them (inherited allow_new of the destination), so the second placement may create them
+            D('AL', M({'a': M({'k': S(0)}), 'b': M({})}), M([('a', dict(M({'k': S(1)}), anchor='x')), ('b', {'alias': 'x'})], kw={'new': False})),
             D('B', base, cmd=['a.b[0].c=7']), D('B', base, cmd=['a.b[0].x=7']), D('B', base, cmd=['a.b[-1]=[1, 2]', 'f=null']),
             D('B', base, cmd=['a.b[2]=1']),
             D('B', base, cmd=['a.b[0].c=7', 'a.e=k=v'], spell=[' a . b [ +0 ] . c = 7 ', 'a.e = k=v']),
@@ -481,7 +501,30 @@ class C08(MergeFamProp):
             out.append(gen_del_case(rng))
         for _ in range(max(4, n // 8)):   # (F), after them
             out.append(gen_fn_case(rng))
+        for _ in range(max(3, n // 12)):  # (AL), after them
+            out.append(self.gen_alias_case(rng))
         return out
+
+    def finding_key(self, case, desc):
+        # D52: child nodes shared through a YAML alias lose the inherited allow_new=False when the first placement is merged
+        if case.get('kind') == 'AL' and desc and 'created the path' in desc:
+            return 'alias-shared-node-under-notnew'
+        return None
+
+    @staticmethod
+    def gen_alias_case(rng):
+        """kind AL (oracle only: node sharing is outside the model): a !notnew override that places one anchored plain mapping
+        under two or three keys of the base; some placements exist in full, some lack an entry"""
+        ks = rng.sample(['a', 'b', 'c', 'k', 'x'], rng.choice([2, 3]))
+        inner = rng.sample(['p', 'q', 'k'], rng.choice([1, 2]))
+        base_items = []
+        for i, k in enumerate(ks):
+            have = [n for n in inner if rng.random() < (0.9 if i == 0 else 0.5)]
+            base_items.append((k, M([(n, S(rng.randrange(9))) for n in have])))
+        shared = M([(n, S(10 + rng.randrange(9))) for n in inner])
+        order = list(ks); rng.shuffle(order)
+        items = [(order[0], dict(shared, anchor='x'))] + [(k, {'alias': 'x'}) for k in order[1:]]
+        return {'docs': [{'raw': M(base_items)}, {'raw': M(items, kw={'new': False})}], 'style': ['flow', 0, 0], 'kind': 'AL'}
 
     def cmd_docs(self, case):
         """the documents equivalent to the command-line overrides (what process_cmdline is specified to produce)"""
@@ -520,6 +563,8 @@ class C08(MergeFamProp):
         return {'tree': impl_merge(full), 'cfg': r, 'cfg_docs': impl_config(full, self.WORLD), 'cmdline': [cmdline_obs(o) for o in spell]}
 
     def model_requests(self, case):
+        if case.get('kind') == 'AL':
+            return []
         if case.get('kind') == 'T':
             return [{'op': 'c08tokens', 'options': case['opts']}]
         docs = case['docs'] + (self.cmd_docs(case) if case.get('cmd') else [])
@@ -529,6 +574,8 @@ class C08(MergeFamProp):
         return reqs
 
     def model_obs(self, case, answers):
+        if case.get('kind') == 'AL':
+            return {'shared': True}
         if case.get('kind') == 'T':
             return {'tokens': answers[0]}
         mo = super().model_obs(case, answers)
@@ -538,6 +585,8 @@ class C08(MergeFamProp):
 
     def compare(self, case, io, mo):
         kind = case.get('kind')
+        if kind == 'AL':
+            return 'SKIP'          # node sharing (YAML anchors / aliases) is outside the model's domain: oracle only
         if kind in ('B', 'T'):
             tk = mo['tokens']
             if 'ok' not in tk:
@@ -627,6 +676,9 @@ class C08(MergeFamProp):
             return self.oracle_del(case, io)
         if kind == 'F':
             return self.oracle_fn(case, io)
+        if kind == 'AL':
+            case = dict(case, docs=[{'raw': resolve_aliases(d['raw'])} for d in case['docs']])
+            kind = 'A'
         if kind not in ('A', 'B', 'N'):
             return None
         cfg = io['cfg']
